@@ -61,6 +61,7 @@ type Contract struct {
 	ModAll   bool
 	AbstractFloats bool // float operations are uninterpreted functions (same symbols in code and spec)
 	Notes        []string // assumptions stated by the contract author, copied into the evidence
+	Inline       bool // callers encode the body instead of using the contract (the contract is still verified for the function itself)
 	SplitReturns bool // check the postconditions once per path into a shared return block (no heap merge)
 	StringsExact bool // model the contents of concatenated strings (quantified axioms)
 	Handler  bool // deferred recover handler: recover() yields an arbitrary value
@@ -473,6 +474,8 @@ func (sp *Specs) loadSpecFile(path, pkgPath string) error {
 				return fail(fmt.Errorf("note outside func"))
 			}
 			cur.Notes = append(cur.Notes, rest)
+		case "inline":
+			cur.Inline = true
 		case "splitreturns":
 			cur.SplitReturns = true
 		case "stringsexact":
